@@ -299,6 +299,9 @@ enum Kind {
     Local(usize),
     Struct,
     Field(usize),
+    /// a member function: scoped like a field, called like a function (so never renamed onto a type word: `int(x)`
+    /// would stop being a call)
+    Method(usize),
     Enum,
     EnumValue(usize),
     Global,
@@ -429,7 +432,7 @@ fn entities(p: &Prog) -> Vec<(usize, Kind)> {
     for (si, s) in p.structs.iter().enumerate() {
         for (mi, m) in s.methods.iter().enumerate() {
             let scope_index = 10_000 + si * 100 + mi;
-            v.push((m.name, Kind::Field(si)));
+            v.push((m.name, Kind::Method(si)));
             if let Some((t, _)) = m.template {
                 v.push((t, Kind::TemplateParam));
             }
@@ -498,7 +501,7 @@ fn record_for(p: &Prog, renamed: &Prog, map: Vec<(String, String)>, verbatim: Ve
             Kind::Namespace => "global".to_string(),
             Kind::Global if p.global_ns.contains_key(&n) => format!("ns:{}", p.global_ns[&n].iter().map(|x| p.names[*x].clone()).collect::<Vec<_>>().join("::")),
             Kind::Struct | Kind::Enum | Kind::EnumValue(_) | Kind::Global => "global".to_string(),
-            Kind::Field(s) => format!("struct{}", s),
+            Kind::Field(s) | Kind::Method(s) => format!("struct{}", s),
             Kind::Param(f) | Kind::Local(f) => format!("function{}", f),
             Kind::TemplateParam => "template".to_string(),
         };
@@ -559,7 +562,7 @@ pub fn make_case_with(choices: &[u32], class: u8, tgt_i: usize, seed: u64, built
                 let (n, _) = ents[(mix.next() % ents.len() as u64) as usize];
                 let w = words[(mix.next() % words.len() as u64) as usize];
                 let (_, kind) = ents.iter().find(|(m, _)| *m == n).unwrap();
-                if TYPE_WORDS.contains(&w) && matches!(kind, Kind::Func | Kind::Struct | Kind::Enum | Kind::TemplateParam) {
+                if TYPE_WORDS.contains(&w) && matches!(kind, Kind::Func | Kind::Method(_) | Kind::Struct | Kind::Enum | Kind::TemplateParam) {
                     continue;
                 }
                 if !taken.insert(w) || map.iter().any(|(o, _): &(String, String)| o == &p.names[n]) {
@@ -576,7 +579,7 @@ pub fn make_case_with(choices: &[u32], class: u8, tgt_i: usize, seed: u64, built
             if !ents.is_empty() && !words.is_empty() {
                 let (n, kind) = ents[(mix.next() % ents.len() as u64) as usize];
                 let w = words[(mix.next() % words.len() as u64) as usize];
-                if !(TYPE_WORDS.contains(&w) && matches!(kind, Kind::Func | Kind::Struct | Kind::Enum | Kind::TemplateParam)) {
+                if !(TYPE_WORDS.contains(&w) && matches!(kind, Kind::Func | Kind::Method(_) | Kind::Struct | Kind::Enum | Kind::TemplateParam)) {
                     q.names[n] = w.to_string();
                     map.push((p.names[n].clone(), w.to_string()));
                     for i in 0..1 + (mix.next() % 2) as usize {
